@@ -59,6 +59,20 @@
 (*             keeps nothing of a call but filled memo slots, so it merges *)
 (*             histories an implementation with working state may tell     *)
 (*             apart                                                       *)
+(*   strike  : a font whose one bitmap table (EBLC/EBDT, or CBLC/CBDT) has  *)
+(*             several strikes that differ in size, in bit depth and in    *)
+(*             the glyphs they hold; lookup_glyph_image for every glyph    *)
+(*             under two sizes and three bit depth limits, with changes of *)
+(*             the image filter in between.  ALL histories up to the depth *)
+(*             (path in the VIEW: the model keeps nothing of an image      *)
+(*             lookup but the selected table)                              *)
+(*   pairs   : a font whose GPOS has PairPos lookups with several          *)
+(*             sub-tables whose Coverages overlap (format 1 exception      *)
+(*             pairs before and after a format 2 class table for the same  *)
+(*             first glyphs, a pair a later sub-table lists but an earlier *)
+(*             one shadows); shaping texts of two to four glyphs with and  *)
+(*             without kerning.  ALL histories up to the depth (path in    *)
+(*             the VIEW: nothing of an application outlives it)            *)
 (* The layout of the collide and fill fonts is part of the CASE: the       *)
 (* harness builds the bytes from it.                                       *)
 (***************************************************************************)
@@ -76,7 +90,9 @@ CONSTANTS MaxDepth,        \* depth of histories on the intact font
           FillLookups,     \* fill: ... of distinct lookups (= number of lookups of the font's GSUB and GPOS)
           MaxDepthScopes,
           MaxDepthVar,     \* var: length of the histories
-          VarTuples        \* var: the variation tuples (besides "none")
+          VarTuples,       \* var: the variation tuples (besides "none")
+          MaxDepthStrike,  \* strike: length of the histories
+          MaxDepthPairs    \* pairs: length of the histories
 
 VARIABLES st, path
 vars == <<st, path>>
@@ -197,6 +213,34 @@ VarFvLayout ==
 VarFvFont == [fam |-> "var", damaged |-> <<>>, lookups |-> VarFvLayout, imgs |-> 0, sub |-> "fv", fv |-> TRUE, fvt |-> <<"tA">>]
 VarFonts == {VarFont, VarDmgFont, VarFvFont}
 
+\* fonts with one bitmap table of four strikes: two sizes, three bit depths, overlapping glyph ranges.  Glyph 2 is
+\* in a 1-bit and in two 8-bit strikes, glyph 3 only in 8-bit ones, glyph 4 in an 8-bit and a 32-bit strike of the same
+\* size, glyph 5 only in the 32-bit one, glyph 6 in none
+Strikes == <<[ppem |-> 12, depth |-> 1, first |-> 1, last |-> 2], [ppem |-> 12, depth |-> 8, first |-> 1, last |-> 3],
+             [ppem |-> 24, depth |-> 8, first |-> 2, last |-> 4], [ppem |-> 24, depth |-> 32, first |-> 4, last |-> 5]>>
+StrikeFont(kind) == [fam |-> "strike", damaged |-> <<>>, lookups |-> <<>>, imgs |-> kind, sub |-> "", strikes |-> Strikes]
+StrikeFonts == {StrikeFont(EBDT), StrikeFont(CBDT)}
+
+\* the font of the pairs family: two PairPos lookups.  Sub-table j of lookup i lies at 2560 + 1024 i + 160 (j - 1), its
+\* Coverage 32 bytes in, the ClassDefs of a format 2 sub-table 64 and 96 bytes in.  kern: exception pairs (A C) (B D), then
+\* the class table {A B} x {B C}, then a format 1 sub-table that lists (E F) and the pair (A D), which the class table
+\* shadows (it handles every pair that starts with A).  dist: class table {C} x {A D}, then pairs (C A) (D A).
+P1(at, cov, covs, pairs, val) == [fmt |-> 1, at |-> at, cov |-> covs, covstr |-> cov, pairs |-> pairs, cls2 |-> <<>>, cls2str |-> "", val |-> val]
+P2(at, cov, covs, c2, c2s, val) == [fmt |-> 2, at |-> at, cov |-> covs, covstr |-> cov, pairs |-> <<>>, cls2 |-> c2s, cls2str |-> c2, val |-> val]
+SubObjs(s) == IF s.fmt = 1 THEN <<Obj("cov", s.at, 32, s.covstr)>>
+              ELSE <<Obj("cov", s.at, 32, s.covstr), Obj("cls", s.at, 64, s.covstr), Obj("cls", s.at, 96, s.cls2str)>>
+RECURSIVE AllSubObjs(_)
+AllSubObjs(subs) == IF subs = <<>> THEN <<>> ELSE SubObjs(subs[1]) \o AllSubObjs(Tail(subs))
+PairL(idx, feat, subs) == [tbl |-> "GPOS", idx |-> idx, feat |-> feat, typ |-> "pairs", ext |-> FALSE, sub |-> subs[1].at, l2 |-> FALSE,
+                           objs |-> AllSubObjs(subs), nested |-> <<>>, subs |-> subs]
+PairsLayout ==
+  <<PairL(0, "kern", <<P1(2560, "AB", <<"A", "B">>, << <<"A", "C">>, <<"B", "D">> >>, 100),
+                       P2(2720, "AB", <<"A", "B">>, "BC", <<"B", "C">>, 30),
+                       P1(2880, "AE", <<"A", "E">>, << <<"A", "D">>, <<"E", "F">> >>, 10)>>),
+    PairL(1, "dist", <<P2(3584, "C", <<"C">>, "AD", <<"A", "D">>, 7),
+                       P1(3744, "CD", <<"C", "D">>, << <<"C", "A">>, <<"D", "A">> >>, 3)>>)>>
+PairsFont == [fam |-> "pairs", damaged |-> <<>>, lookups |-> PairsLayout, imgs |-> 0, sub |-> ""]
+
 Fonts == (IF "intact" \in Families THEN {PlainFont} ELSE {})
          \cup (IF "dmg" \in Families THEN DmgFonts ELSE {})
          \cup (IF "collide" \in Families THEN CollideFonts ELSE {})
@@ -204,6 +248,8 @@ Fonts == (IF "intact" \in Families THEN {PlainFont} ELSE {})
          \cup (IF "fill" \in Families THEN FillFonts ELSE {})
          \cup (IF "scopes" \in Families THEN {ScopesFont} ELSE {})
          \cup (IF "var" \in Families THEN VarFonts ELSE {})
+         \cup (IF "strike" \in Families THEN StrikeFonts ELSE {})
+         \cup (IF "pairs" \in Families THEN {PairsFont} ELSE {})
 
 \* ---- calls ----------------------------------------------------------------
 ShapeCallX(s, l, m, t, custom, feats, frac, m0) ==
@@ -331,6 +377,24 @@ VarFanCalls ==
   \cup {VarCall(s, N2, "tA", TRUE, TRUE) : s \in {"s1", "s2", "s3", "s4"}}
   \cup {[op |-> "Table", k |-> "gdef"], [op |-> "Table", k |-> "gsub"]}
 
+\* strike: lookup_glyph_image(glyph, size, bit depth limit); the filters: everything (EBDT is not in the default
+\* filter) and the default one
+ImageCall(g, p, d) == [op |-> "Image", g |-> g, ppem |-> p, depth |-> d]
+StrikePathCalls == {ImageCall(g, p, d) : g \in {2, 3, 4, 5}, p \in {10, 30}, d \in {1, 8, 32}}
+                   \cup {[op |-> "SetFilter", f |-> f] : f \in {15, DefaultFilter}}
+StrikeFanCalls  == StrikePathCalls \cup {ImageCall(g, 24, d) : g \in {1, 6}, d \in {1, 32}} \cup {[op |-> "HasImages"]}
+
+\* pairs: the text is given glyph by glyph (the model decides which sub-table handles each pair of neighbours)
+PairCall(text, glyphs, kern) ==
+  [op |-> "Shape", text |-> text, glyphs |-> glyphs, script |-> "s1", lang |-> "l1", mask |-> "m1", tuple |-> "none", kern |-> kern,
+   custom |-> FALSE, feats |-> IF kern THEN <<"dist", "kern">> ELSE <<"dist">>, frac |-> FALSE, mask0 |-> "m1"]
+PairTexts == {<<"AB", <<"A", "B">> >>, <<"AC", <<"A", "C">> >>, <<"AD", <<"A", "D">> >>, <<"EF", <<"E", "F">> >>,
+              <<"BD", <<"B", "D">> >>, <<"CA", <<"C", "A">> >>, <<"DA", <<"D", "A">> >>, <<"CD", <<"C", "D">> >>,
+              <<"ABAC", <<"A", "B", "A", "C">> >>, <<"EFAD", <<"E", "F", "A", "D">> >>, <<"DACA", <<"D", "A", "C", "A">> >>,
+              <<"XY", <<"X", "Y">> >>}
+PairPathCalls == {PairCall(t[1], t[2], TRUE) : t \in PairTexts} \cup {PairCall("DACA", <<"D", "A", "C", "A">>, FALSE)}
+PairFanCalls  == PairPathCalls \cup {PairCall("AC", <<"A", "C">>, FALSE), [op |-> "Table", k |-> "gpos"]}
+
 \* calls that extend a history / calls probed after it
 PathCalls(font) == CASE font.fam = "intact"  -> IntactCalls
                      [] font.fam = "dmg"     -> DmgCalls
@@ -343,6 +407,8 @@ FanCalls(font)  == CASE font.fam = "intact"  -> IntactCalls \cup TableCalls
                      [] font.fam = "fill"    -> FillFan(font, Len(path))
                      [] font.fam = "scopes"  -> ScopeCalls
                      [] font.fam = "var"     -> VarFanCalls
+                     [] font.fam = "strike"  -> StrikeFanCalls
+                     [] font.fam = "pairs"   -> PairFanCalls
 DepthOf(font)   == CASE font.fam = "intact"  -> MaxDepth
                      [] font.fam = "dmg"     -> MaxDepthDmg
                      [] font.fam = "collide" -> MaxDepthCollide
@@ -376,9 +442,14 @@ VarDepth(font) == CASE font.sub = ""   -> MaxDepthVar
 NextVar == /\ st.font.fam = "var"
            /\ Len(path) < VarDepth(st.font)
            /\ \E c \in VarPathCalls : st' = Step(st, c).st /\ path' = Append(path, c)
-Next == NextShortest \/ NextImg \/ NextFill \/ NextVar
+\* strike, pairs: every history up to the depth
+NextAll == /\ st.font.fam \in {"strike", "pairs"}
+           /\ Len(path) < (IF st.font.fam = "strike" THEN MaxDepthStrike ELSE MaxDepthPairs)
+           /\ \E c \in (IF st.font.fam = "strike" THEN StrikePathCalls ELSE PairPathCalls) :
+                 st' = Step(st, c).st /\ path' = Append(path, c)
+Next == NextShortest \/ NextImg \/ NextFill \/ NextVar \/ NextAll
 Spec == Init /\ [][Next]_vars
-View == <<st, IF st.font.fam \in {"img", "scopes", "var"} THEN path ELSE <<Len(path)>> >>
+View == <<st, IF st.font.fam \in {"img", "scopes", "var", "strike", "pairs"} THEN path ELSE <<Len(path)>> >>
 
 \* fill: the fan is probed (and printed) at the checkpoints only
 Probed       == st.font.fam # "fill" \/ IsCheckpoint(st.font, Len(path))
